@@ -26,7 +26,14 @@ MapOK(c) ==
   \* skeleton: every upstream request made for this map request is at the resolution of an admissible level
   /\ Contained(Ext, q) => \A n \in 1 .. Len(c.up) :
         LET u == Q6(c.up[n]) IN
-        \E l \in ExpectedLevels(G, q) : RxN(u) = Res(G, l) * RxD(u) /\ RyN(u) = Res(G, l) * RyD(u)
+        \E l \in ExpectedLevels(G, q) :
+           \/ RxN(u) = Res(G, l) * RxD(u) /\ RyN(u) = Res(G, l) * RyD(u)
+           \* a request cut at the edge of the source coverage: the cut rectangle is asked for with a whole number of
+           \* pixels (bbox_position_in_image rounds), so its resolution is off by less than one pixel over its length
+           \/ /\ u[1] = Ext[1] \/ u[2] = Ext[2] \/ u[3] = Ext[3] \/ u[4] = Ext[4]
+              /\ Ext[1] <= u[1] /\ u[3] <= Ext[3] /\ Ext[2] <= u[2] /\ u[4] <= Ext[4]
+              /\ Abs((u[3] - u[1]) - Res(G, l) * u[5]) <= Res(G, l)
+              /\ Abs((u[4] - u[2]) - Res(G, l) * u[6]) <= Res(G, l)
   /\ (Contained(Ext, q) /\ NoTiles(G, q)) => Len(c.up) = 0
 
 InfoCaseOK(c) == InfoOK(Q6(c.q), c.ci, c.cj, Q6(c.u), c.ui, c.uj)
